@@ -36,6 +36,12 @@ func errSX(e error) (SX, bool) {
 	return L(Y("unknown"), B(reflect.TypeOf(e).String())), false
 }
 
+var (
+	prevErr    error
+	prevErrSX  string
+	prevErrMsg string
+)
+
 func runConfig(c cors.Config) (accepted bool, errs SL, typedOK, nilMW bool, cfgOut SX, panicked bool) {
 	defer func() {
 		if recover() != nil {
@@ -54,6 +60,21 @@ func runConfig(c cors.Config) (accepted bool, errs SL, typedOK, nilMW bool, cfgO
 		return
 	}
 	msg0 := err.Error()
+	// an error keeps saying what it said: the previous rejection's error is re-read now that another validation has run
+	// (error values shared or recycled between validations would by now describe this configuration)
+	if prevErr != nil {
+		var now SL
+		for e := range cfgerrors.All(prevErr) {
+			x, _ := errSX(e)
+			now = append(now, x)
+		}
+		if str(now) != prevErrSX || prevErr.Error() != prevErrMsg {
+			typedOK = false
+		}
+	}
+	defer func() {
+		prevErr, prevErrSX, prevErrMsg = err, str(errs), msg0
+	}()
 	var first []error
 	for e := range cfgerrors.All(err) {
 		x, ok := errSX(e)
